@@ -149,6 +149,11 @@ func (p *Parser) parseString(data string) error {
 	if inBackticks {
 		return errors.New("backticks left open")
 	}
+	// The last line ended in a continuation mark and nothing follows: what has been assembled so far
+	// is the directive; dropping it would silently lose a rule.
+	if linebuffer.Len() > 0 {
+		return p.evaluateLine(linebuffer.String())
+	}
 	return nil
 }
 
